@@ -80,6 +80,24 @@ def cases_for_invariants(tier):
     for sql in cyc:
         for d in ("ansi", "non-validating", "mysql"):
             out.append({"sql": sql, "dialect": d, "metadata": None, "silent": False, "want": ["inv"], "src": "generated:cycle"})
+    # file paths: one location spelled several ways across the statements of a script (every spelling is a dataset of its own)
+    prnd = random.Random(seed + 9)
+    for i in range(24 if tier == "quick" else 300):
+        base = prnd.choice(["hdfs://nn/data/daily", "s3://bucket/k/part", "/mnt/lake/zone", "gs://b/x"])
+        sp = prnd.sample([base, base + "/", base.upper(), base + "//", base.replace("/data", "/./data")], 3)
+        fam = prnd.choice(["overwrite_dir", "overwrite_dir", "copy", "mixed"])
+        if fam == "overwrite_dir":
+            d = prnd.choice(["sparksql", "hive", "non-validating"])
+            stmts = [f"insert overwrite directory '{p}' select c_1 from tb_p{i}_{k}" for k, p in enumerate(sp)]
+        elif fam == "copy":
+            d = prnd.choice(["redshift", "snowflake"])
+            stmts = [(f"copy tb_p{i}_{k} from '{p}' iam_role 'r'" if d == "redshift" else f"copy into tb_p{i}_{k} from '{p}'") for k, p in enumerate(sp)]
+        else:
+            d = "sparksql"
+            stmts = [f"insert overwrite directory '{sp[0]}' select c_1 from tb_p{i}_0", f"insert into tb_p{i}_1 select * from parquet.`{sp[1]}`",
+                     f"insert overwrite directory '{sp[2]}' select c_2 from tb_p{i}_1"]
+        prnd.shuffle(stmts)
+        out.append({"sql": ";\n".join(stmts), "dialect": d, "metadata": None, "silent": False, "want": ["inv"], "src": "generated:paths"})
     # metadata variants: expansion and late resolution paths
     md = {"sa.tb_k1": ["c_1", "c_2"], "sb.tb_k2": ["c_1", "k_1"], "zz.o": ["q"]}
     for i, sql in enumerate(_scripts(n // 6, seed + 5)):
